@@ -12,8 +12,10 @@ group_names list is concrete):
   swap         exchanges the classes together with their label arrays, flips both flags
   bootstrap    None / by_label x replacement / single_pass: the sample's labels are the source labels at the *same* index array as
                its scores; group_names passed on; is_sorted flag only for single pass
-Sum over groups = overall confusion matrix (needs the partition-sum lemma L7, an induction), by_group stratification and the default
-group_names: bounded layer.
+  by_group     stratified by group (modular: against the __getitem__ contract proved above and the index-range contract of
+               Scores._sample_indices proved in C11): every (score, label) pair of the sample is a pair of the source with that label,
+               each group keeps its total size, flags and group_names kept
+Sum over groups = overall confusion matrix (needs the partition-sum lemma L7, an induction) and the default group_names: bounded layer.
 """
 import os
 
@@ -51,7 +53,7 @@ def build(sizes=None, only=None, part=None):
     obs = []
     if sizes is not None:
         return obs
-    for fn in (build_init, build_getitem, build_group_cm, build_swap, build_bootstrap):
+    for fn in (build_init, build_getitem, build_group_cm, build_swap, build_bootstrap, build_bootstrap_by_group):
         if part is not None and part != fn.__name__[6:]:
             continue
         try:
@@ -64,7 +66,7 @@ def build(sizes=None, only=None, part=None):
     return obs
 
 
-PARTS = ["init", "getitem", "group_cm", "swap", "bootstrap"]
+PARTS = ["init", "getitem", "group_cm", "swap", "bootstrap", "bootstrap_by_group"]
 
 
 def build_init():
@@ -312,6 +314,115 @@ def build_bootstrap():
             obs.append(Oblig(f"C12/bootstrap/{name}", [], BoolVal(bool(outs) and all(o.raised and "ValueError" in str(o.value.exc) for o in outs)), "post", ("C12",)))
         except Exception as e:
             obs.append(Oblig(f"C12/bootstrap/{name}", [], BoolVal(False), "post", ("C12",), {"engine_error": f"{type(e).__name__}: {e}"}))
+    return obs
+
+
+def build_bootstrap_by_group():
+    """by_group stratification, checked modularly: self[g] and Scores._sample_indices are replaced by their contracts"""
+    from z3 import Function
+    obs = []
+    for sm in ("replacement", "single_pass"):
+        ex = new_exec()
+        path = Path()
+        me = mk_group_scores(ex, path, "pos", "neg")
+        src = {nm: (me.attrs[nm], me.attrs[nm + "_groups"]) for nm in ("pos", "neg")}
+        subs, idxs = {}, {}
+
+        def c_getitem(ex_, p_, self_, g):
+            # contract of GroupScores.__getitem__ (obligations C12/__getitem__/*): a Scores holding, in ascending order, scores of the
+            # source labelled g (witness w), with the flags copied and no easy samples
+            if self_ is not me or g not in GROUPS:
+                raise AssertionError("contract used outside its precondition")
+            parts = {}
+            for nm in ("pos", "neg"):
+                a = P.mk_array(ex_, p_, f"sub_{nm}_{g}", None, ascending=True, prov="fresh")
+                w = Function(f"w_{nm}_{g}", IntSort(), IntSort())
+                k = Int(f"kq_{nm}_{g}")
+                s_, gs_ = src[nm]
+                from z3 import ForAll
+                p_.add(ForAll([k], Implies(And(0 <= k, k < toI(a.axes[0].size)), And(0 <= w(k), w(k) < toI(s_.axes[0].size), toR(s_.elem(w(k))) == toR(a.elem(k)), toI(gs_.elem(w(k))) == g)),
+                              patterns=[a.elem(k)]))
+                parts[nm] = a
+                subs[(nm, g)] = (a, w)
+            o_ = Obj("Scores", pos=parts["pos"], neg=parts["neg"], nb_easy_pos=0, nb_easy_neg=0, score_class=self_.attrs["score_class"], equal_class=self_.attrs["equal_class"])
+            o_.group = g
+            return o_
+
+        def c_sample_indices(ex_, p_, self_, by_label=None, single_pass=None):
+            # contract of Scores._sample_indices without easy samples (C11 membership/sizes obligations): index arrays into pos / neg,
+            # with by_label=False the total number of drawn samples is the total number of samples
+            g = getattr(self_, "group", None)
+            if g is None or by_label is not False:
+                raise AssertionError("contract used outside its precondition")
+            out = []
+            for nm in ("pos", "neg"):
+                n_src = toI(self_.attrs[nm].axes[0].size)
+                m = Int(f"m_{nm}_{g}")
+                A = Array(f"idx_{nm}_{g}", IntSort(), IntSort())
+                k = Int(f"ki_{nm}_{g}")
+                from z3 import ForAll
+                p_.add(m >= 0)
+                p_.add(ForAll([k], Implies(And(0 <= k, k < m), And(0 <= A[k], A[k] < n_src)), patterns=[A[k]]))
+                t = T((Axis(f"idx_{nm}_{g}", m),), lambda q, A=A: A[toI(q)], kind="int", prov="fresh")
+                idxs[(nm, g)] = (t, m)
+                out.append(t)
+            p_.add(idxs[("pos", g)][1] + idxs[("neg", g)][1] == toI(self_.attrs["pos"].axes[0].size) + toI(self_.attrs["neg"].axes[0].size))
+            return (out[0], out[1], 0, 0)
+        ex.contracts[("GroupScores", "__getitem__")] = c_getitem
+        ex.contracts[("Scores", "_sample_indices")] = c_sample_indices
+        cfg = Obj("BootstrapConfig", nb_samples=10, bootstrap_method="bca", sampling_method=sm, stratified_sampling="by_group", smoothing=False, ratio=None)
+        tag = f"[{sm},by_group]"
+        try:
+            outs = run_method(ex, "GroupScores", "bootstrap_sample", me, [], {"config": cfg}, path=path)
+        except Exception as e:
+            if os.environ.get("VERIF_DEBUG"):
+                import traceback
+                traceback.print_exc()
+            obs.append(Oblig(f"C12/bootstrap/executes{tag}", [], BoolVal(False), "post", ("C12",), {"engine_error": f"{type(e).__name__}: {e}"}))
+            continue
+        live = [o for o in outs if not o.raised]
+        obs.append(Oblig(f"C12/bootstrap/returns-without-raising{tag}", [], BoolVal(len(live) == 1 and len(outs) == 1), "post", ("C12",), {"paths": len(outs)}))
+        obs.append(Oblig(f"C12/bootstrap/every-group-resampled-once{tag}", [], BoolVal(sorted(g for (nm, g) in idxs if nm == "pos") == sorted(GROUPS)), "post", ("C12",)))
+        for o in live:
+            w_, hy = o.value, o.path.pc
+            ok = isinstance(w_, Obj) and w_.cls == "GroupScores" and all(isinstance(w_.attrs.get(a), T) for a in ("pos", "neg", "pos_groups", "neg_groups"))
+            obs.append(Oblig(f"C12/bootstrap/returns-GroupScores{tag}", [], BoolVal(bool(ok)), "shape", ("C12",)))
+            if not ok or sorted(g for (nm, g) in idxs if nm == "pos") != sorted(GROUPS):
+                continue
+            obs.append(Oblig(f"C12/bootstrap/group_names-and-flags-kept{tag}", [], BoolVal(P.items_of(w_.attrs["groups"]) == list(GROUPS) and w_.attrs["score_class"] == me.attrs["score_class"]
+                                                                                        and w_.attrs["equal_class"] == me.attrs["equal_class"]), "post", ("C12",)))
+            k, i, j = ex.new_int("k"), ex.new_int("i"), ex.new_int("j")
+            cand = list(ex.__dict__.get("argsort_log", []))
+            for nm in ("pos", "neg"):
+                a, g_ = w_.attrs[nm], w_.attrs[nm + "_groups"]
+                n = toI(a.axes[0].size)
+                s_, gs_ = src[nm]
+                sizes = [idxs[(nm, g)][1] for g in GROUPS]
+                obs.append(Oblig(f"C12/bootstrap/{nm}-sample-size-is-the-sum-of-the-group-draws{tag}", hy, n == sum(sizes[1:], sizes[0]), "post", ("C12",)))
+                # position k of the sample is position pf(k) of the concatenation; that lies in the block of one group g, at offset q,
+                # and is the score sub_g[idx_g[q]] = source[w_g(idx_g[q])] whose source label is g -- and the sample label is g
+                pf = cand[("pos", "neg").index(nm)] if len(cand) == 2 else None
+                if pf is None:
+                    obs.append(Oblig(f"C12/bootstrap/{nm}-pair-is-a-source-pair-with-the-same-label{tag}", [], BoolVal(False), "post", ("C12",), {"engine_error": "argsort witnesses not found"}))
+                    continue
+                obs.append(Oblig(f"C12/bootstrap/{nm}-position-lies-in-one-group-block{tag}", hy + [0 <= k, k < n], And(0 <= pf(k), pf(k) < sum(sizes[1:], sizes[0])), "post", ("C12",)))
+                off = 0
+                for g in GROUPS:
+                    (it, m), (sa, w) = idxs[(nm, g)], subs[(nm, g)]
+                    q = pf(k) - off
+                    jsrc = w(toI(it.elem(q)))
+                    obs.append(Oblig(f"C12/bootstrap/{nm}-pair-is-a-source-pair-with-the-same-label/block-{g}{tag}", hy + [0 <= k, k < n, off <= pf(k), pf(k) < off + m],
+                                     And(0 <= jsrc, jsrc < toI(s_.axes[0].size), toR(a.elem(k)) == toR(s_.elem(jsrc)), toI(g_.elem(k)) == g, toI(gs_.elem(jsrc)) == g), "post", ("C12",),
+                                     {"key": f"C12/bootstrap/{nm}-label-travels"}))
+                    off = off + m
+                obs.append(Oblig(f"C12/bootstrap/{nm}-ascending(class-invariant){tag}", hy, Implies(And(0 <= i, i <= j, j < n), toR(a.elem(i)) <= toR(a.elem(j))), "invariant", ("C12",)))
+            for g in GROUPS:
+                tot_src = toI(subs[("pos", g)][0].axes[0].size) + toI(subs[("neg", g)][0].axes[0].size)
+                obs.append(Oblig(f"C12/bootstrap/group-{g}-keeps-its-total-size{tag}", hy, idxs[("pos", g)][1] + idxs[("neg", g)][1] == tot_src, "post", ("C12",)))
+        for s_ in ex.obligs:
+            s_.id = f"C12/bootstrap/safety:{s_.id}#{len(obs)}{tag}"
+            s_.props = ("C12",)
+            obs.append(s_)
     return obs
 
 
